@@ -24,6 +24,10 @@ pub enum Case06 {
     /// one instance of `class` whose Ref-typed property `prop` (any spelling) points at 0 = a later sibling,
     /// 1 = an earlier sibling, 2 = itself, 3 = its child
     RefProp { class: String, prop: String, target: u8 },
+    /// one instance carrying a property under its canonical name *and* under an alias, with
+    /// different values (both insertion orders): which one counts is the implementation's
+    /// choice, but it is one DOM and the two formats must read it back alike
+    Two { class: String, alias: String, alias_first: bool },
 }
 
 fn value_alphabet(ty: VariantType) -> Vec<Variant> {
@@ -260,6 +264,28 @@ fn canonical_of(class: &str, prop: &str) -> String {
 
 pub fn judge(c: &Case06) -> Vec<(String, String)> {
     match c {
+        Case06::Two { class, alias, alias_first } => {
+            let ty = match declared_type(class, alias) {
+                Some(t) => t,
+                None => return vec![],
+            };
+            let a = value_alphabet(ty);
+            let canonical = canonical_of(class, alias);
+            let (v0, v1) = match (a.first(), a.iter().find(|v| Some(*v) != a.first())) {
+                (Some(x), Some(y)) => (x.clone(), y.clone()),
+                _ => return vec![],
+            };
+            let mut b = InstanceBuilder::new(class.as_str()).with_name("two");
+            if *alias_first {
+                b = b.with_property(alias.as_str(), v1).with_property(canonical.as_str(), v0);
+            } else {
+                b = b.with_property(canonical.as_str(), v0).with_property(alias.as_str(), v1);
+            }
+            let dom = WeakDom::new(InstanceBuilder::new("DataModel").with_child(b));
+            let mut set = BTreeSet::new();
+            set.insert(canonical.clone());
+            judge_dom(&dom, &set, &format!("{:?}|two-spellings", ty), &format!("{} carrying {} and its alias {} with different values", class, canonical, alias))
+        }
         Case06::Single { class, prop, value } => {
             let ty = match declared_type(class, prop) {
                 Some(t) => t,
@@ -396,6 +422,16 @@ pub fn cases(tier: Tier) -> Vec<Case06> {
             if declared_type(class, prop) == Some(VariantType::Ref) {
                 for target in 0..4u8 {
                     extra.push(Case06::RefProp { class: class.clone(), prop: prop.clone(), target });
+                }
+            }
+        }
+    }
+    // two spellings of one property on one instance
+    for c in &out {
+        if let Case06::Single { class, prop, value: 0 } = c {
+            if canonical_of(class, prop) != *prop && declared_type(class, prop) != Some(VariantType::Ref) {
+                for alias_first in [false, true] {
+                    extra.push(Case06::Two { class: class.clone(), alias: prop.clone(), alias_first });
                 }
             }
         }
